@@ -401,25 +401,18 @@ def detect_sense(curve, tol, **kwargs):
     :rtype: bool
     """
     if curve.opt_get('reversed') is None:
-        # Detect sense since it is unset
+        # Detect sense since it is unset: the orientation of a closed curve is the sign of the area which it encloses
+        # (a single corner may turn either way)
         pts = kwargs.get('pts', curve.evalpts)
-        num_pts = len(pts)
-        for idx in range(1, num_pts - 1):
-            sense = detect_ccw(pts[idx - 1], pts[idx], pts[idx + 1], tol)
-            if sense < 0:  # cw
-                curve.opt = ['reversed', 0]
-                return True
-            elif sense > 0:  # ccw
-                curve.opt = ['reversed', 1]
-                return True
-            else:
-                continue
-        # One final test with random points to determine the orientation
-        sense = detect_ccw(pts[int(num_pts/3)], pts[int(2*num_pts/3)], pts[-int(num_pts/3)], tol)
-        if sense < 0:  # cw
+        area = 0.0
+        for idx in range(len(pts)):
+            pt1, pt2 = pts[idx - 1], pts[idx]
+            area += (pt1[0] * pt2[1]) - (pt2[0] * pt1[1])
+        area *= 0.5
+        if area > tol:  # ccw
             curve.opt = ['reversed', 0]
             return True
-        elif sense > 0:  # ccw
+        elif area < -tol:  # cw
             curve.opt = ['reversed', 1]
             return True
         else:
